@@ -123,6 +123,32 @@ Proof.
   intros Hn Hp. apply parse_sound in Hp. destruct Hp as (_ & Ha & Hb). apply Hn. split; assumption.
 Qed.
 
+(* hence the printed form identifies a name: String is injective on names
+   without '/' ... *)
+Corollary ns_string_injective a b a' b' :
+  no_slash a -> no_slash b -> no_slash a' -> no_slash b' ->
+  ns_string (a, b) = ns_string (a', b') -> (a, b) = (a', b').
+Proof.
+  intros Ha Hb Ha' Hb' He.
+  assert (Hp : ns_parse (ns_string (a, b)) = ns_parse (ns_string (a', b'))) by (rewrite He; reflexivity).
+  rewrite (parse_to_string a b Ha Hb), (parse_to_string a' b' Ha' Hb') in Hp. congruence.
+Qed.
+
+(* ... whereas the two halves written one after the other, without the
+   separator, do not: a key built as Namespace + Name confuses different
+   objects ("zu"+"zzw" and "zuz"+"zw" in the harness) *)
+Example concatenation_is_not_injective :
+  exists a b a' b' : str, no_slash a /\ no_slash b /\ no_slash a' /\ no_slash b' /\
+    (a, b) <> (a', b') /\ a ++ b = a' ++ b'.
+Proof.
+  exists [122; 117]%N, [122; 122; 119]%N, [122; 117; 122]%N, [122; 119]%N.
+  assert (Hn : forall l : str, forallb (fun c => negb (N.eqb c slash)) l = true -> no_slash l).
+  { unfold no_slash. intros l Hl Hin. rewrite forallb_forall in Hl. specialize (Hl _ Hin).
+    rewrite N.eqb_refl in Hl. discriminate Hl. }
+  repeat split; try (apply Hn; reflexivity).
+  intros H. discriminate H.
+Qed.
+
 Example parse_examples :
   ns_parse [97; 47; 98]%N = Some ([97], [98])%N /\ ns_parse [47]%N = Some ([], []) /\
   ns_parse [97]%N = None /\ ns_parse [97; 47; 47]%N = None /\ ns_parse [] = None.
